@@ -805,6 +805,12 @@ impl<'a, H: HashAlgorithm> Exec<'a, H> {
             Step::OvBuild { id, parent, batch } => {
                 if let Some(p) = parent {
                     if !self.overlays.contains_key(p) || !self.fork_valid(*p) { rep!(self).notes.push(format!("step {i}: parent overlay missing or an abandoned fork; not built upon")); rep!(self).steps_done = i + 1; return Ok(()); }
+                    // the parent object itself is gone (dropped, or consumed by a rejected commit
+                    // attempt): there is nothing to build on. Supplying only its ancestors would be
+                    // a complete chain for a *different* base, which the API rightly accepts; the
+                    // refusal test below is for a missing link in the middle of a chain.
+                    let pn = &self.overlays[p];
+                    if pn.status != OvStatus::Committed && pn.overlay.is_none() { rep!(self).notes.push(format!("step {i}: parent overlay object is gone; not built upon")); rep!(self).steps_done = i + 1; return Ok(()); }
                 }
                 match self.run_session(batch, *parent)? {
                     None => { rep!(self).notes.push(format!("step {i}: overlay build refused as expected")); }
